@@ -272,9 +272,15 @@ void *malloc(size_t);
 void free(void *);
 /* allocation never fails (assumption listed in the evidence) */
 static inline void *verif_malloc(size_t n) { void *p = malloc(n); __CPROVER_assume(p != 0); return p; }
+/* iterator-range members of an opaque std::string (assign / append (first, last)): the standard requires [first, last) to be a valid range */
+static inline void verif_std_valid_range(const char *first, const char *last)
+{
+  __CPROVER_assert(__CPROVER_same_object(first, last) && __CPROVER_POINTER_OFFSET(first) <= __CPROVER_POINTER_OFFSET(last), "STD [first, last) handed to a std::string range operation is a valid range");
+}
 #else
 #include <stdlib.h>
 #define verif_malloc(n) malloc(n)
+#define verif_std_valid_range(a, b) ((void)0)
 #endif
 
 /* exceptions: class tag of the exception in flight (0 = none) */
